@@ -139,6 +139,33 @@ class Snapshot:
         with open(os.path.join(self.pkg, rel), encoding="utf-8") as f:
             return f.read()
 
+    def repo_state(self):
+        """What was checked: git HEAD of the repository the snapshot was taken from, the tracked files that
+        differ from it (uncommitted edits ARE checked: the snapshot is of the working tree) and a digest of
+        the snapshot's sources — written into the evidence so that a result can be tied to a tree."""
+        import hashlib
+        import subprocess
+        st = {"repo": self.repo}
+        try:
+            st["head"] = subprocess.run(["git", "-C", self.repo, "rev-parse", "--short", "HEAD"], capture_output=True,
+                                        text=True, timeout=20).stdout.strip()
+            dirty = subprocess.run(["git", "-C", self.repo, "status", "--porcelain", "--untracked-files=no"],
+                                   capture_output=True, text=True, timeout=20).stdout.split("\n")
+            st["dirty_files"] = [l[3:] for l in dirty if l.strip()][:50]
+        except Exception as e:  # not a git checkout: still fine
+            st["head"] = "unknown (%s)" % type(e).__name__
+        h = hashlib.sha256()
+        for root, dirs, files in os.walk(self.pkg):
+            dirs.sort()
+            for f in sorted(files):
+                if f.endswith((".py", ".c", ".h")):
+                    fp = os.path.join(root, f)
+                    h.update(os.path.relpath(fp, self.pkg).encode())
+                    with open(fp, "rb") as fh:
+                        h.update(fh.read())
+        st["sources_sha256"] = h.hexdigest()
+        return st
+
     def import_psutil(self):
         """Import the snapshot's psutil into this interpreter (must not be imported yet)."""
         for m in list(sys.modules):
